@@ -163,6 +163,20 @@ def run(cfg, outdir=None, with_series=False):
         mx, mn = ghe.simulate(method=TimestepType.HYBRID)
         res["resim_max"], res["resim_min"] = mx, mn
         res["resim_excess"] = ghe.cost(mx, mn)
+        # the candidate just before the selected one, evaluated afresh at the maximum height (C05: it must fail there);
+        # through initialize_ghe + simulate, not through the search's own calculate_excess / calculated_temperatures
+        s = g._search
+        dom = getattr(s, "coordinates_domain", None)
+        if dom and c["geometric_constraints"]["method"].upper() in ("NEARSQUARE", "RECTANGLE", "BIRECTANGLE"):
+            locs = res["coords"]
+            idx = next((i for i, f in enumerate(dom) if len(f) == len(locs) and
+                        all(abs(float(a[0]) - b[0]) < 1e-9 and abs(float(a[1]) - b[1]) < 1e-9 for a, b in zip(f, locs))), None)
+            res["selected_index"] = idx
+            if idx is not None and idx >= 1:
+                s.initialize_ghe(dom[idx - 1], s.sim_params.max_height)
+                pmx, pmn = s.ghe.simulate(method=s.method)
+                res["pred_excess_at_hmax"] = s.ghe.cost(pmx, pmn)
+                res["pred_nbh"] = len(dom[idx - 1])
     except Exception as ex:  # the exception class is part of what several properties observe
         res = {"ok": False, "exc": type(ex).__name__, "msg": str(ex)[:300]}
         g = None
